@@ -215,8 +215,9 @@ def build_jobs(prop, tier, wd, only=None):
             continue
         feats = h.feats if tier == "thorough" else h.feats[:h.quickfeats]
         for fs in feats:
-            groups.setdefault(fs, []).append(h)
-    for fs, lst in sorted(groups.items()):
-        label = "kani[%s]" % fs
+            # memory-heavy harnesses (observed peak >= 8 GB, @mem) run in their own, less parallel group
+            groups.setdefault((fs, "heavy" if h.mem_gb >= 8 else ""), []).append(h)
+    for (fs, cls), lst in sorted(groups.items()):
+        label = "kani[%s]%s" % (fs, "/" + cls if cls else "")
         jobs.append((label, (lambda l=label, x=lst, f=fs: kunit.run_group(l, x, f, jobs=12)), "kani"))
     return jobs
